@@ -169,8 +169,25 @@ func (c *C08) bondedKeyed(in *hub.Instance) []hub.Validator {
 }
 
 func (c *C08) vote(in *hub.Instance, g *c08Ghost, ev mhubtypes.ExternalEvent, st *engine.Step) {
-	for _, v := range c.bondedKeyed(in) {
-		if r := in.DeliverMsg(hub.EventMsg(v.Orch, "ethereum", ev)); !r.OK() {
+	for i, v := range c.bondedKeyed(in) {
+		claim := ev
+		if sse, ok := ev.(*mhubtypes.SignerSetTxExecutedEvent); ok {
+			// every orchestrator builds its own claim; the first one to arrive lists the members back to front (the claim
+			// id does not depend on the member order: it is the same claim)
+			cp := *sse
+			cp.Members = nil
+			for _, m := range sse.Members {
+				mm := *m
+				cp.Members = append(cp.Members, &mm)
+			}
+			if i == 0 {
+				for a, b := 0, len(cp.Members)-1; a < b; a, b = a+1, b-1 {
+					cp.Members[a], cp.Members[b] = cp.Members[b], cp.Members[a]
+				}
+			}
+			claim = &cp
+		}
+		if r := in.DeliverMsg(hub.EventMsg(v.Orch, "ethereum", claim)); !r.OK() {
 			st.Count("claims_rejected", 1)
 		}
 	}
